@@ -16,7 +16,12 @@ import (
 	"verif/harness/wire"
 )
 
-const verifDir = "/verif"
+var verifDir = func() string {
+	if d := os.Getenv("VERIF_DIR"); d != "" {
+		return d
+	}
+	return "/verif"
+}()
 
 // RunCtx carries one check invocation.
 type RunCtx struct {
